@@ -4,6 +4,7 @@ import (
 	"context"
 	"fmt"
 	"strings"
+	"sync"
 
 	jsonrpc "github.com/filecoin-project/go-jsonrpc"
 
@@ -15,12 +16,21 @@ import (
 // environment gate until the scheduler lets it complete.
 type EchoSrv struct {
 	s     *vsched.Sched
+	mu    sync.Mutex
 	Calls map[int]int
 	hold  bool
 }
 
+func (e *EchoSrv) Count(tok int) int {
+	e.mu.Lock()
+	defer e.mu.Unlock()
+	return e.Calls[tok]
+}
+
 func (e *EchoSrv) Echo(ctx context.Context, tok int) (int, error) {
+	e.mu.Lock()
 	e.Calls[tok]++
+	e.mu.Unlock()
 	if e.hold {
 		e.s.Env(fmt.Sprintf("complete-%d", tok))
 	}
@@ -91,8 +101,8 @@ func concBody(s *vsched.Sched, p Param) {
 				if v != fmt.Sprintf("%d/<nil>", tok) {
 					s.Violate("call %d returned %s, want its own token and a nil error", tok, v)
 				}
-				if srv.Calls[tok] != 1 {
-					s.Violate("handler ran %d times for token %d", srv.Calls[tok], tok)
+				if srv.Count(tok) != 1 {
+					s.Violate("handler ran %d times for token %d", srv.Count(tok), tok)
 				}
 			}
 		}
